@@ -489,6 +489,115 @@ fn parent_port_switch(rep: &mut Report, seed: u64) {
     }
 }
 
+/// Exchanges of different slave phases must not be combined either: the port is slave, sends a
+/// Delay_Req, loses its parent (announce receipt timeout), becomes slave of the same parent again and
+/// sends another Delay_Req. The left-overs of the first exchange (a late transmit timestamp, a
+/// delayed Delay_Resp) arrive while the second one is outstanding.
+fn slave_phases(rep: &mut Report, seed: u64) {
+    use statime::observability::port::PortState;
+    let replay = json!({"slave_phases_seed": seed});
+    let mut rng = StdRng::seed_from_u64(seed);
+    let asym: i128 = [0i128, 1 << 40, -(1i128 << 40)][rng.gen_range(0..3)];
+    let mut b = Build::new(2);
+    b.rec_reply = ReplyMode::Counter { step: 1_000_003 };
+    b.asymmetry_units = asym;
+    b.seed = seed;
+    if rng.gen_bool(0.5) {
+        b.slave_only = true;
+        b.clock_class = 255;
+    }
+    let Ok(built) = b.build() else { return };
+    let mut node = built.node;
+    let Some(rec) = built.rec else { return };
+    let mut parent = Remote::new(9, 1);
+    let (oc, op) = node.port_identity_bytes(0);
+    let own = Pid { clock: oc, port: op };
+    let mut now = 1_700_000_000 * SEC + rng.gen_range(0..SEC);
+    let mut delay_req = |node: &mut Node, now: &mut u128| -> Option<(u16, TimestampContext)> {
+        *now += SEC / 4;
+        let acts = node.call(0, Call::DelayRequestTimer).ok()?;
+        for a in acts {
+            if let Act::SendEvent { ctx: Some(c), data, .. } = a {
+                if let Ok(m) = Msg::decode(&data) {
+                    if m.hdr.msg_type == T_DELAY_REQ {
+                        return Some((m.hdr.seq, c));
+                    }
+                }
+            }
+        }
+        None
+    };
+    // phase 1
+    if make_slave(&mut node, 0, &mut parent).is_err() || node.port_state(0) != PortState::Slave {
+        return;
+    }
+    let t1 = units_to_ts(now - (100_000u128 << 32));
+    if node.call(0, Call::EventRx(parent.src.sync(1, false, t1, 0).encode(), time_from_units(now))).is_err() {
+        return;
+    }
+    let Some((seq1, ctx1)) = delay_req(&mut node, &mut now) else { return };
+    let t3_old = now + rng.gen_range(0..(1u128 << 34));
+    let t4_old = units_to_ts(t3_old + (rng.gen_range(50_000..900_000u128) << 32));
+    let report_old_before_leaving = rng.gen_bool(0.3);
+    let mut ctx1 = Some(ctx1);
+    if report_old_before_leaving {
+        if node.call(0, Call::TxTimestamp(ctx1.take().unwrap(), time_from_units(t3_old))).is_err() {
+            return;
+        }
+    }
+    // the parent is lost ...
+    if node.call(0, Call::AnnounceReceiptTimer).is_err() || node.port_state(0) == PortState::Slave {
+        return;
+    }
+    // ... and found again
+    now += 2 * SEC;
+    if make_slave(&mut node, 0, &mut parent).is_err() || node.port_state(0) != PortState::Slave {
+        rep.ev("slave_phases_not_reached");
+        return;
+    }
+    let Some((seq2, ctx2)) = delay_req(&mut node, &mut now) else { return };
+    rep.ev("second_slave_phase");
+    let t3_new = now + rng.gen_range(0..(1u128 << 34)) + (7 * SEC);
+    let t4_new = units_to_ts(t3_new + (rng.gen_range(50_000..900_000u128) << 32));
+    let before = rec.lock().unwrap().events.len();
+    // left-overs of the first exchange and the messages of the second one, in a seeded order
+    let mut evs: Vec<u8> = vec![0, 1, 2, 3]; // 0 late tx ts of #1, 1 delayed resp of #1, 2 tx ts of #2, 3 resp of #2
+    for i in (1..evs.len()).rev() {
+        evs.swap(i, rng.gen_range(0..=i));
+    }
+    let mut ctx2 = Some(ctx2);
+    for e in evs {
+        let r = match e {
+            0 => match ctx1.take() {
+                Some(c) => node.call(0, Call::TxTimestamp(c, time_from_units(t3_old))).map(|_| ()),
+                None => Ok(()),
+            },
+            1 => node.call(0, Call::GeneralRx(parent.src.delay_resp(seq1, t4_old, own, 0).encode())).map(|_| ()),
+            2 => node.call(0, Call::TxTimestamp(ctx2.take().unwrap(), time_from_units(t3_new))).map(|_| ()),
+            _ => node.call(0, Call::GeneralRx(parent.src.delay_resp(seq2, t4_new, own, 0).encode())).map(|_| ()),
+        };
+        if r.is_err() {
+            return;
+        }
+    }
+    let want = t3_new as i128 - t4_new.to_units() as i128 - asym;
+    let g = rec.lock().unwrap();
+    for ev in &g.events[before..] {
+        if let RecEvent::Measurement { m, .. } = ev {
+            if let Some(rd) = m.raw_delay_offset {
+                rep.ev("delay_measurement");
+                if dur_units(rd) != want {
+                    rep.violation(
+                        "C09|slave-phases|delay-offset-not-one-exchange",
+                        &format!("second slave phase (Delay_Req seq {seq2}, first phase used seq {seq1}): raw_delay_offset {} units, the only complete exchange of this phase gives {want}; left-overs of the first phase (t3 {t3_old}, t4 {:?}) were around", dur_units(rd), t4_old),
+                        replay.clone(),
+                    );
+                }
+            }
+        }
+    }
+}
+
 fn alphabet_sync() -> Vec<E> {
     vec![E::S(0), E::F(0), E::S(1), E::F(1), E::S(2), E::F(2)]
 }
@@ -499,7 +608,7 @@ fn full_alphabet() -> Vec<E> {
 
 pub fn run(rep: &mut Report, tier: &str, seed: u64, shard: (u32, u32), replay: Option<&str>) {
     rep.rule = "event scripts over the messages of three Sync exchanges (two-step / one-step / mixed) and Delay_Req exchanges of a slave port: every sequence up to a length bound over the six Sync/Follow_Up messages is enumerated, delay events, foreign-master copies, late/duplicate/other-requester responses are interleaved by seeded sampling; unique random timestamps and corrections per exchange; distinct = distinct (script, parameters); non-trivial = at least one measurement reached the filter".into();
-    rep.require(&["sync_measurement", "delay_measurement", "stray_follow_up_for_one_step_sync", "parent_port_switch"]);
+    rep.require(&["sync_measurement", "delay_measurement", "stray_follow_up_for_one_step_sync", "parent_port_switch", "second_slave_phase"]);
     if let Some(path) = replay {
         let v: serde_json::Value = serde_json::from_str(&std::fs::read_to_string(path).unwrap()).unwrap();
         if let Ok(c) = serde_json::from_value::<Case>(v["case"].clone()) {
@@ -596,6 +705,7 @@ pub fn run(rep: &mut Report, tier: &str, seed: u64, shard: (u32, u32), replay: O
         count(rep, &case);
         if i % 200 == 0 {
             parent_port_switch(rep, rng.gen());
+            slave_phases(rep, rng.gen());
         }
     }
 }
